@@ -18,6 +18,7 @@ extern crate self as soroban_sdk;
 pub use soroban_sdk_macros::{contract, contractclient, contracterror, contractimpl, contracttype};
 
 pub mod shim;
+mod harness_macros;
 use shim::*;
 
 // ------------------------------------------------------------------------------------------------
